@@ -3,6 +3,7 @@ package main
 // Evaluation of specification expressions to SMT terms over a symbolic state.
 
 import (
+	"go/token"
 	"fmt"
 	"go/types"
 	"sort"
@@ -385,13 +386,39 @@ func (env *SpecEnv) localVar(name string) *SV {
 			return &SV{V: &Val{L: e.loadLoc(st, loc)}, T: pt}
 		}
 	}
+	// several locals may share a name (loop variables): resolve the name by Go's scoping rules at a position inside
+	// the loop body (loop clauses) or at the end of the function body (pre/postconditions)
 	var found *ssa.Alloc
+	if a := env.scopedAlloc(name); a != nil {
+		found = a
+	}
+	best := -1
+	if found != nil {
+		best = 1 << 40
+	}
 	for _, b := range fx.fn.Blocks {
 		for _, in := range b.Instrs {
-			if a, ok := in.(*ssa.Alloc); ok && a.Comment == name {
-				if found == nil || (env.loop != nil && env.loop.body[b]) {
-					found = a
+			a, ok := in.(*ssa.Alloc)
+			if !ok || a.Comment != name {
+				continue
+			}
+			score := 0
+			if env.loop != nil {
+				if env.loop.body[b] {
+					score = 1 << 30
+				} else {
+					for _, l := range fx.loopList {
+						if l.body[b] && l.body[env.loop.header] {
+							// an enclosing loop: the smaller, the closer
+							if sc := (1 << 20) - len(l.body); sc > score {
+								score = sc
+							}
+						}
+					}
 				}
+			}
+			if found == nil || score > best {
+				found, best = a, score
 			}
 		}
 	}
@@ -1074,9 +1101,8 @@ func (env *SpecEnv) evalCall(x *SExpr) *SV {
 				return mathSV("0")
 			}
 			if env.fx == nil {
-				// the clause is being used at a call site of the contract's owner: the value is internal to the callee,
-				// the caller learns only that some such value exists
-				return mathSV(e.c.fresh("callres", SInt))
+				env.errorf("$call used outside the body of the contract's owner")
+				return mathSV("0")
 			}
 			top := env.fx.topFx()
 			rt := top.callResT[args[0].Name]
@@ -1181,14 +1207,25 @@ func (env *SpecEnv) evalCall(x *SExpr) *SV {
 			v := fx.makeIface(env.st, a.V, a.T)
 			return &SV{V: v, T: types.NewInterfaceType(nil, nil)}
 		case "$visited":
-			if env.loop == nil || env.loop.rng == nil {
+			lp := env.loop
+			if len(args) == 2 && args[1].Op == "num" && env.fx != nil {
+				// $visited(k, n): the visited set of the function's n-th loop (for invariants of loops nested in it and
+				// for clauses after it)
+				lp = nil
+				for _, l := range env.fx.loopList {
+					if fmt.Sprint(l.ord) == args[1].Name {
+						lp = l
+					}
+				}
+			}
+			if lp == nil || lp.rng == nil {
 				env.errorf("$visited outside a map-range loop")
 				return boolSV("false")
 			}
 			k := env.eval(args[0])
-			m := env.loop.rng.X.Type().Underlying().(*types.Map)
+			m := lp.rng.X.Type().Underlying().(*types.Map)
 			ks, _ := e.mapSorts(m)
-			key := env.fx.iterKey(env.loop.rng, ks)
+			key := env.fx.iterKey(lp.rng, ks)
 			return boolSV(sel(e.heapGet(env.state(), key), k.V.L[0]))
 		case "count":
 			// count(m, v): number of keys mapped to v in map m (uninterpreted + lemmas)
@@ -1625,4 +1662,47 @@ func (e *Engine) declareUF(uf *UFDecl) {
 		rs = e.fl.leaves(rt)[0].Sort
 	}
 	e.c.fun("uf_"+uf.Name, sorts, rs)
+}
+
+// scopedAlloc finds the Alloc of the local variable that the identifier name denotes, by go/types scoping, at a
+// position inside the current loop's body (or at the end of the function when not in a loop clause).
+func (env *SpecEnv) scopedAlloc(name string) *ssa.Alloc {
+	fx := env.fx
+	if fx == nil || fx.fn == nil || fx.fn.Pkg == nil || fx.fn.Pkg.Pkg == nil {
+		return nil
+	}
+	var at token.Pos
+	if env.loop != nil {
+		for b := range env.loop.body {
+			if b == env.loop.header {
+				continue
+			}
+			for _, in := range b.Instrs {
+				if p := in.Pos(); p.IsValid() && p > at {
+					at = p
+				}
+			}
+		}
+	} else if syn := fx.fn.Syntax(); syn != nil {
+		at = syn.End() - 1
+	}
+	if !at.IsValid() {
+		return nil
+	}
+	sc := fx.fn.Pkg.Pkg.Scope().Innermost(at)
+	if sc == nil {
+		return nil
+	}
+	_, obj := sc.LookupParent(name, at)
+	if obj == nil {
+		return nil
+	}
+	for _, b := range fx.fn.Blocks {
+		for _, in := range b.Instrs {
+			if a, ok := in.(*ssa.Alloc); ok && a.Comment == name && a.Pos() == obj.Pos() {
+				return a
+			}
+		}
+	}
+	return nil
 }
